@@ -98,17 +98,56 @@ inductive Method
   | other  -- any other (extension) method token; method names are case-sensitive, `get` is `other`
 deriving Repr, DecidableEq
 
+/-! ### The header map (`http::HeaderMap` as hyper fills it)
+
+Every header field of the request in wire order, name and value as sent. `HeaderMap` compares names
+ASCII-case-insensitively (hyper lower-cases them while parsing); `get` returns the FIRST value of a
+name, `contains_key` says whether there is one. The service function performs exactly two look-ups
+(server.rs:289-291 `contains_key(ACCESS_CONTROL_REQUEST_METHOD)`, :303
+`get(ACCESS_CONTROL_REQUEST_HEADERS)`); every other header — `Origin`, `Host`, `Referer`, `Cookie`,
+`Authorization`, … — is in the map and is never read. -/
+
+abbrev Headers := List (List Char × List Char)
+
+def lowerAscii (c : Char) : Char :=
+  if 65 ≤ c.toNat ∧ c.toNat ≤ 90 then Char.ofNat (c.toNat + 32) else c
+
+/-- header names are equal up to ASCII case -/
+def hdrNameEq (a b : List Char) : Bool := a.map lowerAscii == b.map lowerAscii
+
+/-- `HeaderMap::get(name)`: the first value stored under the name -/
+def hdrGet : Headers → List Char → Option (List Char)
+  | [], _ => none
+  | (n, v) :: rest, name => if hdrNameEq n name then some v else hdrGet rest name
+
+/-- `HeaderMap::contains_key(name)` -/
+def hdrContains (hs : Headers) (name : List Char) : Bool := (hdrGet hs name).isSome
+
+/-- `header::ACCESS_CONTROL_REQUEST_METHOD` -/
+def acrmName : List Char :=
+  ['a','c','c','e','s','s','-','c','o','n','t','r','o','l','-','r','e','q','u','e','s','t','-',
+   'm','e','t','h','o','d']
+
+/-- `header::ACCESS_CONTROL_REQUEST_HEADERS` -/
+def acrhName : List Char :=
+  ['a','c','c','e','s','s','-','c','o','n','t','r','o','l','-','r','e','q','u','e','s','t','-',
+   'h','e','a','d','e','r','s']
+
 structure Req where
   method : Method
   /-- `req.uri().path()` exactly as hyper delivers it -/
   path : List Char
-  /-- header `Access-Control-Request-Method` present -/
-  hasACRM : Bool
-  /-- first value of `Access-Control-Request-Headers`, if any -/
-  acrh : Option (List Char)
+  /-- `req.headers()`: all header fields of the request, in wire order -/
+  headers : Headers
   /-- the body is valid UTF-8 -/
   bodyUtf8 : Bool
 deriving Repr, DecidableEq
+
+/-- server.rs:289-291 `req.headers().contains_key(header::ACCESS_CONTROL_REQUEST_METHOD)` -/
+def Req.hasACRM (req : Req) : Bool := hdrContains req.headers acrmName
+
+/-- server.rs:303 `req.headers().get(header::ACCESS_CONTROL_REQUEST_HEADERS)` (first value) -/
+def Req.acrh (req : Req) : Option (List Char) := hdrGet req.headers acrhName
 
 structure ProfileFile where
   /-- file name ends in `.gz` -/
@@ -245,5 +284,102 @@ def pathOfTarget (t : List Char) : Option (List Char) :=
     | none =>
       -- authority-form (`host`, `host:port`): no path at all; anything with `/ ? #` in it is malformed
       if t.any (fun c => c = '/' || isPathEnd c) then none else some []
+
+/-! ## The wire level: what one request line + header block gives, and whole connections
+
+`serveWire` composes the three steps between the bytes of a request and the response:
+the method token (`http::Method::from_bytes`: case-sensitive, anything unknown is an extension method),
+the request-target (`pathOfTarget`; `none` = hyper answers 400 itself and closes the connection), and
+the service function. `serveCase` runs a whole history: any number of connections (numbered), the
+requests interleaved in any order, possibly against different server configurations. The service
+function is called once per request with nothing but that request (`run_server`, server.rs:218-238:
+the closure passed to `service_fn` captures only clones of the immutable start-up values), so the only
+state a history has is which connections are still open: a connection ends when the service function
+panics (the connection task dies), when hyper rejects the request line, or when the keep-alive rules of
+HTTP end it (`Connection: close`; HTTP/1.0 without `Connection: keep-alive`). -/
+
+/-- `http::Method::from_bytes` restricted to the distinctions the service function makes -/
+def methodOfToken : List Char → Method
+  | ['G','E','T'] => .get
+  | ['P','O','S','T'] => .post
+  | ['O','P','T','I','O','N','S'] => .options
+  | ['H','E','A','D'] => .head
+  | ['P','U','T'] => .put
+  | ['D','E','L','E','T','E'] => .delete
+  | ['P','A','T','C','H'] => .patch
+  | _ => .other
+
+structure WireReq where
+  /-- the method token of the request line -/
+  methodTok : List Char
+  /-- the request-target of the request line -/
+  target : List Char
+  /-- `HTTP/1.1` (true) or `HTTP/1.0` (false) -/
+  http11 : Bool
+  headers : Headers
+  bodyUtf8 : Bool
+deriving Repr, DecidableEq
+
+inductive WireOut
+  | resp (r : Resp)
+  | panic      -- the service function panicked: connection dropped without a response
+  | rejected   -- hyper answers `400 Bad Request` itself (no headers of ours) and closes
+  | closed     -- the connection was already over when the request was sent
+deriving Repr, DecidableEq
+
+def serveWire (cfg : Cfg) (w : WireReq) : WireOut :=
+  match pathOfTarget w.target with
+  | none => .rejected
+  | some p =>
+    match service cfg { method := methodOfToken w.methodTok, path := p, headers := w.headers,
+                        bodyUtf8 := w.bodyUtf8 } with
+    | .resp r => .resp r
+    | .panic => .panic
+
+/-- does an outcome expose anything: a cross-origin permission header, profile / API data, or a
+dropped connection (the observable trace of a panic)? -/
+def WireOut.exposes : WireOut → Bool
+  | .resp r => r.anyCors || r.kind.isData
+  | .panic => true
+  | .rejected => false
+  | .closed => false
+
+def connectionName : List Char := ['c','o','n','n','e','c','t','i','o','n']
+def closeTok : List Char := ['c','l','o','s','e']
+def keepAliveTok : List Char := ['k','e','e','p','-','a','l','i','v','e']
+
+/-- hyper's keep-alive decision for a request (the value of `Connection` compared as one token,
+ASCII-case-insensitively — the harness sends no comma lists). Part of the hyper layer, like
+`pathOfTarget`: checked by the correspondence run only. -/
+def keepAlive (w : WireReq) : Bool :=
+  match hdrGet w.headers connectionName with
+  | some v => if w.http11 then !(hdrNameEq v closeTok) else hdrNameEq v keepAliveTok
+  | none => w.http11
+
+/-- does the connection survive this exchange? (An HTTP/1.0 client cannot be sent a body of unknown
+length — the streamed profile file, server.rs:337-340 — other than by closing the connection.) -/
+def survives (w : WireReq) : WireOut → Bool
+  | .resp r => keepAlive w && (w.http11 || !(match r.kind with | .profile _ => true | _ => false))
+  | _ => false
+
+/-- One step of a history: request `(connection number, configuration of the server it talks to,
+request)`; `dead` = the connections that are over. -/
+def serveStep (dead : List Nat) (x : Nat × Cfg × WireReq) : WireOut × List Nat :=
+  if dead.contains x.1 then (.closed, dead)
+  else
+    let o := serveWire x.2.1 x.2.2
+    (o, if survives x.2.2 o then dead else x.1 :: dead)
+
+/-- A history: the requests in the order they are sent. -/
+def serveCase : List Nat → List (Nat × Cfg × WireReq) → List WireOut
+  | _, [] => []
+  | dead, x :: rest => (serveStep dead x).1 :: serveCase (serveStep dead x).2 rest
+
+/-- The request-target literally carries the prefix at the start of its path: either the target
+begins with it (origin-form), or it is `http://<authority>` + prefix… with an authority free of
+`/ ? #` (absolute-form). -/
+def LiteralUnder (pfx t : List Char) : Prop :=
+  pfx <+: t ∨ ∃ auth : List Char, (∀ c ∈ auth, c ≠ '/' ∧ c ≠ '?' ∧ c ≠ '#') ∧
+    (httpScheme ++ auth ++ pfx) <+: t
 
 end Server
